@@ -274,7 +274,7 @@ func runC09Declared(c *Case) {
 		if r.Chance(40) {
 			u.fc = 3
 		}
-		u.file = genData(r, 16000)
+		u.file = genData(r, 24000)
 		hdrLen := 56 + len(u.info.encode())
 		n := 1 + r.Intn(4)
 		ok := true
